@@ -9,6 +9,7 @@ mod fam_sema;
 mod fam_semt;
 mod fam_semw;
 mod fam_scope;
+mod fam_shape;
 mod sema;
 mod fam_tree;
 mod fam_use;
@@ -35,6 +36,7 @@ fn main() {
         "semw" => fam_semw::run(rest),
         "use" => fam_use::run(rest),
         "scope" => fam_scope::run(rest),
+        "shape" => fam_shape::run(rest),
         f => {
             eprintln!("unknown family {f}");
             std::process::exit(2);
